@@ -185,6 +185,10 @@ func init() {
 		in.allocLim = int64(in.intArg(th, args[0]))
 		return nil, ctlNext
 	})
+	regAPI("vClass", func(in *Interp, th *Thread, fr *Frame, args []Value, call ssa.Instruction) (Value, ctl) {
+		in.failClass = strArg(args[0])
+		return nil, ctlNext
+	})
 	regAPI("vNote", func(in *Interp, th *Thread, fr *Frame, args []Value, call ssa.Instruction) (Value, ctl) {
 		in.notes = append(in.notes, strArg(args[0]))
 		in.events = append(in.events, strArg(args[0]))
